@@ -66,13 +66,12 @@ theorem graph_feeds_eqsView (key : Node → String) (eqs : List Eqn) (vars : Lis
       simp only [eqsView, hb, errClass, Except.map, buildGraph_errName key eqs x _ hb] at h ⊢
       simpa using h
 
-/-- … and likewise for the graph with sympy numbers (on the domain of `graphNum_tie_built`) -/
-theorem graphNum_feeds_eqsView (key : Node → String) (eqs : List Eqn) (dummies : Eqn → List Nat) (g : Graph)
-    (recurse : Bool) (hb : buildGraph key eqs = .ok g)
-    (hS : ∀ e ∈ eqs, (dummies e).isEmpty = true → ∀ r ∈ e.refs, r ∈ e.refsNum) :
-    (GraphNum.graphWithSympyNumbers (numView eqs dummies (.ok g)) none).map (·.1)
+/-- … and likewise for the graph with sympy numbers (no domain condition: `graphNum_tie_built`) -/
+theorem graphNum_feeds_eqsView (key : Node → String) (eqs : List Eqn) (g : Graph)
+    (recurse : Bool) (hb : buildGraph key eqs = .ok g) :
+    (GraphNum.graphWithSympyNumbers (numView eqs (.ok g)) none).map (·.1)
       = (eqsView key eqs recurse).graphNum := by
-  rw [graphNum_tie_built key eqs dummies g hb hS]
+  rw [graphNum_tie_built key eqs g hb]
   simp [eqsView, hb, errClass, Except.map]
 
 end Cellml.Tie.PGraph
